@@ -464,3 +464,23 @@ Proof.
   - match goal with H : chk (cr <=? _) _ = ROk |- _ => apply chk_true in H; [|discriminate]; now apply chk_intro end.
   - match goal with H : chk (d <=? _) _ = ROk |- _ => apply chk_true in H; [|discriminate]; now apply chk_intro end.
 Qed.
+
+(* ---- numbers 1, 2, 3, ... survive File.Create's renumbering in ascending order -------------- *)
+
+Lemma renumber_seq_ascending bs : forall s,
+  (forall i b, nth_error bs i = Some b -> bt_number b = s + Z.of_nat i) ->
+  numbers_ascending (s - 1) (renumber s bs) = true.
+Proof.
+  induction bs as [|b bs IH]; intros s H; cbn [renumber numbers_ascending]; [reflexivity|].
+  pose proof (H 0%nat b eq_refl) as Hb. rewrite Z.add_0_r in Hb.
+  assert (Hn : bt_number (if bt_number b <=? 1 then set_number b s else b) = s) by (destruct (bt_number b <=? 1); [reflexivity|exact Hb]).
+  rewrite Hn. replace (s <=? s - 1) with false by (symmetry; apply Z.leb_gt; lia).
+  replace s with (s + 1 - 1) at 1 by lia. apply IH. intros i x Hx. rewrite (H (S i) x Hx). lia.
+Qed.
+
+Lemma Sorted_map {X Y} (R : X -> X -> Prop) (R' : Y -> Y -> Prop) (g : X -> Y) l :
+  (forall a b, R a b -> R' (g a) (g b)) -> Sorted R l -> Sorted R' (map g l).
+Proof.
+  intros Hg. induction 1 as [|x l Hs IH Hh]; cbn [map]; constructor; [exact IH|].
+  destruct Hh as [|y l' Hxy]; cbn [map]; constructor. now apply Hg.
+Qed.
